@@ -365,21 +365,10 @@ impl MarkdownEventsReader {
     }
 
     fn to_inline_range(&self, range: Range<usize>) -> InlineRange {
-        let mut start = 0;
-        let mut start_line_start = 0;
-        let mut end = 0;
-        let mut end_line_start = 0;
-
-        for (line, &line_start) in self.line_starts.iter().enumerate() {
-            if line_start <= range.start {
-                start = line;
-                start_line_start = line_start;
-            }
-            if line_start <= range.end {
-                end = line;
-                end_line_start = line_start;
-            }
-        }
+        let start = self.line_of(range.start);
+        let start_line_start = self.line_starts[start];
+        let end = self.line_of(range.end);
+        let end_line_start = self.line_starts[end];
 
         // LSP positions count UTF-16 code units, not bytes
         Position {
@@ -398,18 +387,17 @@ impl MarkdownEventsReader {
             .unwrap_or(to - from)
     }
 
-    fn to_line_range(&self, range: Range<usize>) -> LineRange {
-        let mut start = 0;
-        let mut end = 0;
+    // the last line that starts at or before the offset (binary search: this is asked for every
+    // block and inline of a note)
+    fn line_of(&self, offset: usize) -> usize {
+        self.line_starts
+            .partition_point(|&line_start| line_start <= offset)
+            .saturating_sub(1)
+    }
 
-        for (line, &line_start) in self.line_starts.iter().enumerate() {
-            if line_start <= range.start {
-                start = line;
-            }
-            if line_start <= range.end {
-                end = line;
-            }
-        }
+    fn to_line_range(&self, range: Range<usize>) -> LineRange {
+        let start = self.line_of(range.start);
+        let mut end = self.line_of(range.end);
 
         if start == end {
             end += 1;
